@@ -34,7 +34,8 @@ class Spec:
         self.harness_post = ''
         self.options = set()
         self.properties = []
-        self.extra = {}
+        self.extra = collections.OrderedDict()
+        self.is_lemma = False
         self.tolerate = collections.OrderedDict()   # name -> (regex on obligation description, reason)
 
     def loop(self, k):
@@ -65,6 +66,14 @@ def load_specs(directory):
         cp.optionxform = str
         cp.read(path)
         for sec in cp.sections():
+            ml = re.match(r'^lemma\s+(.*)$', sec)
+            if ml:
+                lem = Spec('lemma:' + ml.group(1).strip(), path)
+                lem.is_lemma = True
+                for opt, val in cp.items(sec):
+                    lem.extra[opt] = ' '.join(l.strip() for l in val.strip().splitlines())
+                specs[lem.key] = lem
+                continue
             m = re.match(r'^fn\s+(.*)$', sec)
             if not m:
                 raise ValueError('%s: unknown section [%s]' % (path, sec))
